@@ -699,6 +699,21 @@ def r08_2(ctx):
             ctx.violation([s.key(), "use"], "bytes of the existing generated file flow into %s (allowed: equality comparison only)" % sorted(set(bad)), site=site)
         else:
             ctx.ok("byte-read compared only|%s|%s" % (s.role, s.key()), site=site, detail=sorted(set(uses)))
+        # what is compared is what was read — not a stand-in for a file that could not be read (`Err(NotFound) => Vec::new()` makes a
+        # missing output equal to an empty fresh one: it is then never created)
+        rbb = s.bb
+        for cbb, ct in b.calls():
+            if not (C.callee_name(ct) or "").endswith(("::eq", "::ne")) or len(ct["args"]) != 2:
+                continue
+            for a in ct["args"]:
+                lv = C.trace(b, a, through_fields=True, transparent=lambda tt: C.is_transparent(tt) or C.callee_name(tt) in FORWARD_NEUTRAL)
+                if any(l.kind == "call" and l.bb == rbb for l in lv):
+                    other = [l for l in lv if not (l.kind == "call" and l.bb == rbb) and l.kind in ("call", "const", "aggregate")]
+                    if other:
+                        ctx.violation([s.key(), "stand-in"], "the buffer compared with the fresh content is not only what %s read: %s (a file that "
+                                      "could not be read must not compare as some made-up content)" % (s.name, [repr(l) for l in other][:3]), site=ctx.site(b, cbb))
+                    else:
+                        ctx.ok("compared buffer = the bytes read|%s" % s.key(), site=ctx.site(b, cbb))
 
 
 PARTIAL_READ_RE = None
@@ -1010,6 +1025,93 @@ def r09_4(ctx):
         ctx.ok("clap Arg `needed` has short 'N'")
     else:
         ctx.violation(["cli-short-N"], "clap Arg `needed` short flag is %s, documented -N" % chk)
+
+
+def _cli_mode_map(ctx, want):
+    """`txtpp clean` / `txtpp verify`: in Command::apply_to the arm of each subcommand stores exactly its own Mode into config.mode"""
+    binp = ctx.bin
+    if binp is None:
+        ctx.anchor_missing("binary crate facts")
+        return
+    ca = ctx.role(binp, "txtpp::Command::apply_to")
+    if not ca:
+        return
+    cmd_adt = next((p_ for p_ in binp.adts if p_.endswith("::Command") or p_ == "txtpp::Command"), None)
+    if cmd_adt is None:
+        ctx.anchor_missing("enum Command of the CLI")
+        return
+    # every Mode value that can be stored into config.mode, with the block where it is built (the store itself may sit behind the
+    # match: `let (mode, flags) = match self { Clean {..} => (Mode::Clean, ..), .. }; config.mode = mode;`)
+    built = []
+    for bb, si, st in ca.stmts():
+        if st["k"] == "assign" and st["lhs"]["p"] and st["lhs"]["p"][-1].get("name") == "mode":
+            lv = C.trace(ca, st["rv"]["op"]) if st["rv"]["k"] == "use" else [C.Leaf("aggregate", bb, st["rv"])]
+            for l in lv:
+                if l.kind == "aggregate" and l.data["agg"]["k"] == "adt":
+                    built.append((l.data["agg"]["variant"], l.bb if l.bb is not None else bb))
+                else:
+                    built.append(("?", bb))
+    e = enum_edges(ca, binp, cmd_adt, lambda vs: vs == {want})
+    reg = C.exclusive_region(ca, e) if e else set()
+    here = {v for v, abb in built if abb in reg}
+    elsewhere = {v for v, abb in built if abb not in reg}
+    if e and here == {want} and want not in elsewhere:
+        ctx.ok("subcommand `%s` selects Mode::%s and nothing else does" % (want.lower(), want), site=ctx.site(ca, min(reg)))
+    else:
+        ctx.violation(["cli-subcommand", want], "the `%s` subcommand stores %s into config.mode (Mode::%s expected), other arms store %s" % (
+            want.lower(), sorted(here), want, sorted(elsewhere)), site=ctx.site(ca, min(reg) if reg else 0))
+    # and the top level (no subcommand) never selects it
+    ap = ctx.role(binp, "txtpp::Cli::apply_to")
+    if ap:
+        for bb, si, st in ap.stmts():
+            if st["k"] == "assign" and st["lhs"]["p"] and st["lhs"]["p"][-1].get("name") == "mode":
+                lv = C.trace(ap, st["rv"]["op"]) if st["rv"]["k"] == "use" else [C.Leaf("aggregate", bb, st["rv"])]
+                if any(l.kind == "aggregate" and l.data["agg"].get("variant") == want for l in lv):
+                    ctx.violation(["cli-default-mode", want], "running txtpp without a subcommand can select Mode::%s" % want, site=ctx.site(ap, bb))
+
+
+@rule("C06", "R06.4", floor=1)
+def r06_4(ctx):
+    """CLI plumbing: the `verify` subcommand — and only it — selects Mode::Verify (a swapped or shared arm would make `txtpp verify`
+    rewrite files, or `txtpp` / `txtpp clean` merely compare them)"""
+    _cli_mode_map(ctx, "Verify")
+
+
+@rule("C07", "R07.9", floor=1)
+def r07_9(ctx):
+    """CLI plumbing: the `clean` subcommand — and only it — selects Mode::Clean"""
+    _cli_mode_map(ctx, "Clean")
+
+
+@rule("C09", "R09.5", floor=1)
+def r09_5(ctx):
+    """the Mode a file is processed in is the configured one: the library never constructs a Mode value of its own (only Config::default
+    and the derived Clone do) — a `Mode::Build` literal handed to IOCtx::new on some path would make a needed-build truncate and rewrite
+    an unchanged output, or a verify write"""
+    lib = ctx.lib
+    n = 0
+    for b in lib.bodies.values():
+        ags = aggregates(b, ADT["Mode"])
+        if not ags:
+            continue
+        if b.j.get("impl_trait") in ("std::clone::Clone", "std::default::Default") and (b.span.get("exp") or b.name.startswith("<%s as " % ADT["Config"])
+                                                                                            or b.name.startswith("<%s as " % ADT["Mode"])):
+            n += 1
+            continue
+        for bb, st in ags:
+            ctx.violation([b.name, "mode-literal", st["rv"]["agg"]["variant"]], "%s constructs Mode::%s itself: the mode must be the one configured by the caller" % (
+                b.name, st["rv"]["agg"]["variant"]), site=ctx.site(b, bb))
+    # and what IOCtx::new receives derives from the mode parameter / field only
+    for (b, bb, t) in C.all_call_sites(lib, lambda ns, t: ROLE["ioctx_new"] in ns):
+        nw = lib.bodies.get(ROLE["ioctx_new"])
+        pi = nw.param_index_by_name("mode") if nw else 2
+        lv = C.trace(b, t["args"][pi - 1], through_fields=True)
+        if lv and all(l.kind in ("param", "field") for l in lv):
+            ctx.ok("IOCtx::new is given the caller's mode|%s" % b.name, site=ctx.site(b, bb))
+        else:
+            ctx.violation([b.name, "ioctx-mode"], "IOCtx::new is given a mode that is not simply the caller's: %s" % [repr(l) for l in lv][:3], site=ctx.site(b, bb))
+    if n == 0:
+        ctx.anchor_missing("Config::default / Mode::clone (the only places a Mode value is built)")
 
 
 def clap_arg_short(binp, arg_id):
